@@ -26,6 +26,7 @@ var premises = map[string]premiseFn{
 	"slots-cap":            premSlotsCap,
 	"pos-keys":             premPosKeys,
 	"btErr-clamp":          premTrue,
+	"unshadow-key-probe":   premUnshadowKeyProbe,
 }
 
 func premTrue(c *Ctx) (bool, string) { return true, "" }
@@ -233,8 +234,10 @@ func topLevelIndex(list []ast.Stmt, pred func(ast.Stmt) bool) int {
 
 // loadImportsLoops finds the discovery (worklist) loop and the ordering loop of the
 // loader by shape, in loadImports or in helpers it was split into:
-//   discovery: for len(W) > 0 { ... W = W[:len(W)-1] ... }   (W a slice)
-//   ordering:  for len(M) > 0 { ... delete(M, k) ... }       (M a map)
+//
+//	discovery: for len(W) > 0 { ... W = W[:len(W)-1] ... }   (W a slice)
+//	ordering:  for len(M) > 0 { ... delete(M, k) ... }       (M a map)
+//
 // fd is the function holding the discovery loop.
 func (c *Ctx) loadImportsLoops() (fd *ast.FuncDecl, first, second *ast.ForStmt) {
 	root := c.Func("loadImports")
@@ -424,7 +427,9 @@ func premLoadImportsSelect(c *Ctx) (bool, string) {
 }
 
 // selectionDrain checks the shape
-//   for len(M) > 0 { K, F := ..; for _, k := range S { ...; K, F = k, true; break }; if !F { return }; ... delete(M, K) ...; idx := slices.Index(S, K); S = slices.Delete(S, idx, idx+1) }
+//
+//	for len(M) > 0 { K, F := ..; for _, k := range S { ...; K, F = k, true; break }; if !F { return }; ... delete(M, K) ...; idx := slices.Index(S, K); S = slices.Delete(S, idx, idx+1) }
+//
 // and returns "" when it holds, else what is missing.
 func (c *Ctx) selectionDrain(loop *ast.ForStmt) string {
 	if c.selectionDrainIndexed(loop) == "" {
@@ -811,7 +816,8 @@ func premPosKeys(c *Ctx) (bool, string) {
 }
 
 // selectionDrainIndexed accepts the equivalent shape
-//   for len(M) > 0 { idx := slices.IndexFunc(S, pred) | slices.Index(S, x); if idx < 0 { return ... }; K := S[idx]; ...; S = slices.Delete(S, idx, idx+1) }
+//
+//	for len(M) > 0 { idx := slices.IndexFunc(S, pred) | slices.Index(S, x); if idx < 0 { return ... }; K := S[idx]; ...; S = slices.Delete(S, idx, idx+1) }
 func (c *Ctx) selectionDrainIndexed(loop *ast.ForStmt) string {
 	list := loop.Body.List
 	idxVar, S := "", ""
@@ -923,4 +929,84 @@ func (c *Ctx) returnsNonEmptyTree(fd *ast.FuncDecl) bool {
 		return true
 	})
 	return ok && n > 0
+}
+
+// premUnshadowKeyProbe: the iterative form of lookup.unshadow.  Its `for { }` loop terminates
+// because every iteration that continues (a) has found the probe key "~"+key in the finite
+// keyToIndex map, (b) stores into the map only under the shorter key, and (c) ends by making
+// the probe the new key: the probe strictly lengthens, and no key at least as long as the
+// probe is ever added, so a probe longer than every key is missing after finitely many steps.
+// Checked: the loop body starts with `alias := <non-empty const> + key` (or uses that
+// expression directly), a comma-ok read of keyToIndex[alias] whose miss returns, every store
+// into keyToIndex is under `key`, and key is assigned exactly once, from the probe.
+func premUnshadowKeyProbe(c *Ctx) (bool, string) {
+	fd := c.Func("lookup.unshadow")
+	if fd == nil || fd.Body == nil {
+		return false, "lookup.unshadow not found"
+	}
+	var loop *ast.ForStmt
+	for _, st := range fd.Body.List {
+		if f, ok := st.(*ast.ForStmt); ok && f.Cond == nil && f.Init == nil && f.Post == nil {
+			loop = f
+		}
+	}
+	if loop == nil {
+		return false, "no unconditional loop in lookup.unshadow"
+	}
+	var keyObj types.Object
+	for _, f := range fd.Type.Params.List {
+		for _, nm := range f.Names {
+			keyObj = c.Info.Defs[nm]
+		}
+	}
+	in := newInterp(c)
+	st := newState()
+	in.bindParams(st, fd.Recv, fd.Type, nil)
+	keyTerm := st.Vars[keyObj]
+	if keyTerm == nil {
+		return false, "key parameter not bound"
+	}
+	paths := in.execStmts(loop.Body.List, []*State{st})
+	if in.Overflow || len(paths) == 0 {
+		return false, "cannot enumerate the paths of the loop body"
+	}
+	continuing := 0
+	for _, p := range paths {
+		if p.Done == "return" || p.Done == "panic" {
+			continue
+		}
+		if p.Done == "break" {
+			continue
+		}
+		continuing++
+		nk := p.Vars[keyObj]
+		if nk == nil || nk.Op != "bin" || nk.Name != "+" || len(nk.Args) != 2 || nk.Args[0].Op != "str" || nk.Args[0].Name == "" || !nk.Args[1].Eq(keyTerm) {
+			return false, "a continuing iteration does not replace key by <non-empty constant> + key (got " + fmt.Sprint(nk) + ")"
+		}
+		// the probe was found on this path
+		foundProbe := false
+		for _, cd := range p.Conds {
+			s := cd.String()
+			if !strings.HasPrefix(s, "!") && strings.Contains(s, ".keyToIndex") && strings.Contains(s, nk.String()) {
+				foundProbe = true
+			}
+		}
+		if !foundProbe {
+			return false, "a continuing iteration has not established that the probe key is in keyToIndex: " + condStrings(p)
+		}
+		for _, e := range p.Eff {
+			if e.Kind == "store" && e.Target != nil && e.Target.Op == "index" && strings.HasSuffix(e.Target.Args[0].String(), ".keyToIndex") {
+				if !e.Target.Args[1].Eq(keyTerm) {
+					return false, "a continuing iteration stores into keyToIndex under " + e.Target.Args[1].String() + ", not under the (shorter) key"
+				}
+			}
+			if e.Kind == "loop" {
+				return false, "nested loop"
+			}
+		}
+	}
+	if continuing == 0 {
+		return false, "no continuing path"
+	}
+	return true, ""
 }
